@@ -447,6 +447,8 @@ def run_core(ctx: Check, pid: str, n_quick: int = 110, n_thorough: int = 1600):
                     extra.append("TxV.Core.BridgeC01")
                 if pid in ("C01", "C02", "C03", "C04", "C05", "C07", "C08") and (LEAN / "TxV/Core/BridgeEval.lean").exists():
                     extra.append("TxV.Core.BridgeEval")
+                if pid in ("C01", "C02") and (LEAN / "TxV/Core/Placed.lean").exists():
+                    extra.append("TxV.Core.Placed")
                 ctx.proof_stage(extra_modules=extra)
                 break
             except InfraError as e:
